@@ -74,7 +74,7 @@ const unsigned CASE_TIMEOUT_S = 300;   // engine alarm per case (one case = all 
 const double DEADLOCK_SECS = 40;       // all unfinished workers blocked (state S/D) without progress for this long
 
 // ------------------------------------------------------------------------------------------------ TSan report capture
-enum { MAX_REPORTS = 12, MAX_MOPS = 4, MAX_STACKS = 4, MAX_PCS = 24 };
+enum { MAX_REPORTS = 16, MAX_MOPS = 4, MAX_STACKS = 4, MAX_PCS = 24 };   // g_raw is a ring: slot = report number % MAX_REPORTS
 struct RawReport {
     char desc[64];
     int nmop, nstack;
@@ -98,8 +98,8 @@ extern "C" __attribute__((no_sanitize("thread"))) void __tsan_on_report(void *re
     const char *desc = nullptr; int count = 0, nstack = 0, nmop = 0, nloc = 0, nmutex = 0, nthr = 0, nutid = 0; void *sleep_trace[2] = { 0, 0 };
     if (!__tsan_get_report_data(rep, &desc, &count, &nstack, &nmop, &nloc, &nmutex, &nthr, &nutid, sleep_trace, 2)) return;
     int i = g_nraw.load(std::memory_order_relaxed);
-    if (i >= MAX_REPORTS) { g_raw_dropped.fetch_add(1, std::memory_order_relaxed); return; }
-    RawReport &r = g_raw[i];
+    if (i - g_handled.load(std::memory_order_relaxed) >= MAX_REPORTS) { g_raw_dropped.fetch_add(1, std::memory_order_relaxed); return; }   // never between runs: every run drains the ring
+    RawReport &r = g_raw[i % MAX_REPORTS];
     memset(&r, 0, sizeof r);
     snprintf(r.desc, sizeof r.desc, "%s", desc ? desc : "unknown");
     r.nmop = std::min(nmop, (int) MAX_MOPS); r.nstack = std::min(nstack, (int) MAX_STACKS);
@@ -503,7 +503,8 @@ void *worker_main(void *arg) {
 }
 
 // ------------------------------------------------------------------------------------------------ analysis (main thread)
-std::string hx(const std::string &s) { return vf::hex(s.data(), s.size(), 6); }
+// session ids are shown as hex prefix, ticket key names (printable by construction) as text
+std::string hx(const std::string &s) { if (s.size() == 16 && s.compare(0, 8, "c20-key-") == 0) return s; return vf::hex(s.data(), s.size(), 6); }
 std::string ev_str(const Ev &e) {
     std::string s = fmt("T%d[%llu,%llu] %s", e.thread, (unsigned long long) e.s, (unsigned long long) e.e, ev_name[e.kind]);
     if (e.kind == EV_HS) s += fmt(" %s suite=%04x present=%s(%s) -> completed=%d resumed=%d now=%s", mode_name[e.mode], e.suite, e.attempt < 0 ? "none" : mode_name[e.attempt], hx(e.in_ident).c_str(), (int) e.completed, (int) e.resumed, hx(e.out_ident).c_str());
@@ -760,7 +761,7 @@ void run_once(const Program &p, int run_idx, uint64_t yield_seed, const std::str
         bool all_done = true; for (auto *w : ws) if (!w->done.load(std::memory_order_acquire)) all_done = false;
         if (all_done) break;
         for (int n = g_nraw.load(std::memory_order_acquire), h = g_handled.load(std::memory_order_relaxed); h < n; h++) {
-            Report r = render(g_raw[h]);
+            Report r = render(g_raw[h % MAX_REPORTS]);
             if (!ctx.is_known(r.sig)) fatal_report(r, desc, verbose);
             g_handled.store(h + 1, std::memory_order_relaxed);   // known finding: the workers carry on, it is counted after the run
         }
@@ -795,8 +796,8 @@ void run_once(const Program &p, int run_idx, uint64_t yield_seed, const std::str
     // ---- oracle 1: ThreadSanitizer reports raised during this run
     int raw1 = g_nraw.load(std::memory_order_relaxed);
     std::string first_sig, first_text;
-    for (int i = raw0; i < raw1; i++) {
-        Report r = render(g_raw[i]);
+    for (int i = std::max(raw0, raw1 - (int) MAX_REPORTS); i < raw1; i++) {
+        Report r = render(g_raw[i % MAX_REPORTS]);
         fprintf(stderr, "[c20] %s -> signature %s\n%s", desc.c_str(), r.sig.c_str(), r.text.c_str());
         // report the first signature that is not a known finding (ThreadSanitizer reports each race only once per process)
         if (first_sig.empty() || (ctx.is_known(first_sig) && !ctx.is_known(r.sig))) { first_sig = r.sig; first_text = r.text; }
